@@ -289,3 +289,5 @@ func firstDiffLine(a, b string) string {
 	}
 	return fmt.Sprintf("lengths %d vs %d", len(la), len(lb))
 }
+
+func (Engine) Text(sci interface{}) string { return sci.(*Scenario).Prog.Render() }
